@@ -63,10 +63,13 @@ Js(c) ==
       [] c.op = "parseFloat"    -> <<"parseFloat(", Lit(StrV(c.s)), ")">>
       [] c.op = "parseInt"      -> <<"parseInt(", Lit(StrV(c.s)), ", ", Lit(c.a), ")">>
       [] c.op = "lit"           -> <<[units |-> c.s]>>
+      [] c.op = "thisFixed"     -> <<"Number.prototype.toFixed.call(", Lit(c.x), ", ", Lit(c.a), ")">>
+      [] c.op = "thisExponential" -> <<"Number.prototype.toExponential.call(", Lit(c.x), ", ", Lit(c.a), ")">>
+      [] c.op = "thisPrecision" -> <<"Number.prototype.toPrecision.call(", Lit(c.x), ", ", Lit(c.a), ")">>
       [] c.op = "litstr"        -> <<"String(", [units |-> c.s], ")">>
       [] c.op = "pistr"         -> <<"String(parseInt(", Lit(StrV(c.s)), ", ", Lit(c.a), "))">>
 
-Expect(Str(_, _), RT(_, _), Rad(_, _, _), Fix(_, _, _, _), Ex(_, _, _, _), Pr(_, _, _, _), TN(_), PF(_), PI(_, _), LE(_), LS(_), PS(_, _), c, sd, rp) ==
+Expect(Str(_, _), RT(_, _), Rad(_, _, _), Fix(_, _, _, _), Ex(_, _, _, _), Pr(_, _, _, _), TN(_), PF(_), PI(_, _), LE(_), LS(_), PS(_, _), TF(_, _), TE(_, _), TP(_, _), c, sd, rp) ==
     CASE c.op \in {"String", "concat"} -> Str(c.x, sd)
       [] c.op = "rt"            -> RT(c.x, sd)
       [] c.op = "toString"      -> Rad(c.x, c.a, sd)
@@ -77,6 +80,9 @@ Expect(Str(_, _), RT(_, _), Rad(_, _, _), Fix(_, _, _, _), Ex(_, _, _, _), Pr(_,
       [] c.op = "parseFloat"    -> PF(c.s)
       [] c.op = "parseInt"      -> PI(c.s, c.a)
       [] c.op = "lit"           -> LE(c.s)
+      [] c.op = "thisFixed"     -> TF(c.x, c.a)
+      [] c.op = "thisExponential" -> TE(c.x, c.a)
+      [] c.op = "thisPrecision" -> TP(c.x, c.a)
       [] c.op = "litstr"        -> LS(c.s)
       [] c.op = "pistr"         -> PS(c.s, c.a)
 
@@ -93,11 +99,15 @@ TextBlocks ==
     \cup {<<"l", i, j>> : i \in 1..6, j \in 1..NLA} \cup {<<"l", 0, 0>>}
     \cup {<<"x", k, 0>> : k \in 1..Len(XText)}
     \cup {<<"y", k, 0>> : k \in 1..16}
+    \cup {<<"z", 0, 0>>}
 
 Init == /\ cs = None
         /\ IF Fam = "dom" THEN blk \in {<<"d", b, 0>> : b \in 1..NB} ELSE blk \in TextBlocks
 
 T2N(o, s) == [op |-> o.op, s |-> s, a |-> o.a]
+(* this values that are not Numbers (15.7.4): strings, booleans, null *)
+ThisVals == {StrV(<<49, 50>>), StrV(<<48, 46, 53>>), StrV(<<50, 46, 53>>), StrV(<<49, 101, 50, 49>>), BoolV(TRUE), BoolV(FALSE), Null}
+ThisArgs == {Undef, IntV(0), IntV(1), IntV(2), IntV(7), IntV(20), IntV(21), IntV(25), IntV(-1)}
 Next ==
     /\ cs = None
     /\ UNCHANGED blk
@@ -110,6 +120,8 @@ Next ==
                \E i \in 1..6 : cs' = [op |-> "lit", s |-> <<LA[i]>>, a |-> Undef]
          [] blk[1] = "l" /\ blk[2] > 0 ->
                \E t \in Tails(LitLen - 2, NLA) : cs' = [op |-> "lit", s |-> <<LA[blk[2]], LA[blk[3]]>> \o LitOf(t), a |-> Undef]
+         [] blk[1] = "z" -> \E o \in {"thisFixed", "thisExponential", "thisPrecision"}, tv \in ThisVals, a \in ThisArgs :
+                               cs' = [op |-> o, x |-> tv, a |-> a]
          [] blk[1] = "x" -> \E o \in XOps : cs' = T2N(o, XText[blk[2]])
          [] blk[1] = "y" -> \E k \in {i \in 1..Len(XLit) : i % 16 = blk[2] - 1}, o \in {"lit", "litstr"} : cs' = [op |-> o, s |-> XLit[k], a |-> Undef]
 
@@ -119,9 +131,9 @@ Emit ==
         sd == S!PreShort(cs.x)
         rp == S!PreRound(cs.op, cs.x, cs.a)
         es == Expect(S!ToStrP, S!RoundTripP, S!ToStringRadixP, S!ToFixedP, S!ToExponentialP, S!ToPrecisionP,
-                     S!ToNum, S!ParseFloat, S!ParseInt, S!LitEval, S!LitStr, S!ParseIntStr, cs, sd, rp)
+                     S!ToNum, S!ParseFloat, S!ParseInt, S!LitEval, S!LitStr, S!ParseIntStr, S!ThisFixed, S!ThisExponential, S!ThisPrecision, cs, sd, rp)
         ed == Expect(L!ToStrP, L!RoundTripP, L!ToStringRadixP, L!ToFixedP, L!ToExponentialP, L!ToPrecisionP,
-                     L!ToNum, L!ParseFloat, L!ParseInt, L!LitEval, L!LitStr, L!ParseIntStr, cs, sd, rp)
+                     L!ToNum, L!ParseFloat, L!ParseInt, L!LitEval, L!LitStr, L!ParseIntStr, L!ThisFixed, L!ThisExponential, L!ThisPrecision, cs, sd, rp)
     IN  \/ es.thr = "skip"
         \/ /\ \* self-checks of the specification: 9.8.1 followed by 9.3.1 is the identity, and the
               \* acceptor-based formulation of parseFloat agrees with the direct one
